@@ -70,6 +70,11 @@ CHECKS = {
    text="The real Client.Do (sender, receiver and cancel-watch goroutines run as cooperative coroutines over errgroup/context models) is executed against a harness net.Conn with the negotiated revision symbolic (all revisions at once), all Query strings, settings (client and query level, flags), parameters, external data and input cells symbolic, compression disabled or enabled (method None framing, CityHash uninterpreted). The bytes recorded by the connection are asserted equal to the output of an independent reference encoder: one Query packet with the caller's fields in order, [external block] + empty block, then input block + empty block, each a Data packet with table name and exactly one checksummed frame iff compression is on; parameters are refused before 54459 with nothing written.",
    ref="DESIGN.md §4 C02",
    note="bounds: strings of tied length 0..1 (quick)/2, <=1 client setting, <=1 query setting, <=1 parameter, external data one UInt64 column, input <=2 columns (UInt64, String) x <=2 rows; LZ4/ZSTD bit streams outside (opaque codec); OpenTelemetry off; scheduling: first-runnable policy (the written bytes do not depend on the schedule in these scenarios); streamed input is C09"),
+ "C09": dict(
+   level="model_checking",
+   text="Client.Do with OnInput is executed for every callback history of up to 2 (quick)/3 (thorough) rounds over {append a row, reset+append, overwrite row 0 in place, reset to nothing} x final result {io.EOF, wrapped io.EOF, other error}, initial rows 0..2, a zero-copy column (ColUInt64) or ColStr, with and without framing; all cells symbolic. The client-to-server bytes are asserted equal to query + terminator + one reference-encoded block per round holding the shadow model's contents when the round began + exactly one terminator; bytes delivered before a callback ran must be a prefix of the final stream (no rewriting through aliased memory); a callback error fails Do and no Data block follows the failing round.",
+   ref="DESIGN.md §4 C09",
+   note="bounds: <=2/3 rounds, <=2 initial rows, one input column, revision 54460, method None framing; the connection copies at Write time (exact aliasing model); LZ4/ZSTD streams and write segmentation by the kernel are outside"),
 }
 
 NA = {
